@@ -14,7 +14,7 @@ M == INSTANCE Clipper2 WITH Kind <- "c64", N <- 0, K <- 0, G <- 0, st <- 0, h <-
 
 Report(prop, clause, d) == PrintT(<<"FAIL", prop, l, clause, d>>)
 Chk(c, prop, clause, d) == IF c THEN TRUE ELSE Report(prop, clause, d)
-KindOf(k) == IF k = "cd" THEN "c64" ELSE k
+KindOf(k) == IF k = "cd" THEN "c64" ELSE IF k = "offm" THEN "off" ELSE k     \* "offm": offset world mixing orientations, judged against the fresh object only
 
 RECURSIVE Run(_, _, _)
 Run(kind, steps, i) == IF i = 0 THEN M!InitState(kind) ELSE M!Apply(kind, Run(kind, steps, i - 1), steps[i])
@@ -39,13 +39,13 @@ OnlyRounding(got, want) ==
 (* classes of confirmed defects (known_findings.json), decided here on the failing call: *)
 (*  S2: a Joined group holding a 2-point path followed by a longer path                  *)
 (*  S5: a Polygon group without area precedes other groups and delta < 0                 *)
-ObsOK(kind, steps, o, f) ==
+ObsOK(kind, steps, o, f, alone) ==
   LET i == o[1]  s == Run(kind, steps, i - 1)
   IN /\ Chk(M!IsExec(kind, steps[i]), "HARNESS", "obs_not_an_execute", i)
      /\ Chk(kind = "rc" \/ (f[1] = s.adds /\ f[2] = s.pc /\ f[3] = s.rs), "HARNESS", "fresh_object_not_fed_the_abstract_state", i)
      /\ Chk(o[3] = 1, "C11", "execute_returned_false", i)
      /\ Chk(o[2] = 1, "C12", "result_differs_from_fresh_object", i)
-     /\ (kind = "off" /\ NoDup(s.adds) /\ s.adds # <<>>) =>
+     /\ (kind = "off" /\ alone /\ NoDup(s.adds) /\ s.adds # <<>>) =>
           LET want == Sorted(FlatU(s.adds, steps[i][2], <<s.rs, s.pc>>, 1))
           IN IF o[5] = want THEN TRUE
              ELSE IF OnlyRounding(o[5], want) THEN Report("C12", "offset_alone_differs_by_rounding", i)
@@ -56,7 +56,7 @@ THist == /\ Ev.e = "Hist"
          /\ LET kind == KindOf(Ev.kind)
                 nex == Cardinality({i \in 1..Len(Ev.steps) : M!IsExec(kind, Ev.steps[i])})
             IN /\ Chk(Len(Ev.obs) = nex /\ Len(Ev.fresh) = nex, "HARNESS", "missing_observation", nex)
-               /\ \A j \in 1..Len(Ev.obs) : ObsOK(kind, Ev.steps, Ev.obs[j], Ev.fresh[j])
+               /\ \A j \in 1..Len(Ev.obs) : ObsOK(kind, Ev.steps, Ev.obs[j], Ev.fresh[j], Ev.kind = "off")
 TUnit == /\ Ev.e = "OffUnit"
          /\ units' = (<<Ev.g, Ev.d, Ev.rs, Ev.at>> :> [ids |-> Ev.ids, et |-> Ev.et, np |-> Ev.npaths]) @@ units
          /\ UNCHANGED rings
